@@ -10,7 +10,7 @@ pub fn run_c01p(args: &Args) -> Report {
     let mut rep = Report::new("C01", "M5p", &args.replay_dir);
     let model = Model::new(&args.model, &args.work);
     let mut rng = Rng::new(args.seed.wrapping_mul(1000).wrapping_add(args.shard as u64).wrapping_add(0xC01F));
-    let total = if args.thorough() { 300_000 } else { 12_000 };
+    let total = if args.thorough() { 120_000 } else { 8_000 };
     let n = total / args.shards.max(1);
     rep.rule = "single passes through the re-exported `preprocess` (library, in process, real sh, no coordinator): every source of a generated project, first and final pass, modes build / needed / verify / clean, both trailing settings, on the tree as generated or after a full build (so that dependency outputs exist). Compared with the Lean runPass: outcome kind, the dependency list reported by a first pass (order and multiplicity), and for ok / dependency outcomes every byte of the tree, the executed-command markers and untouched paths. distinct_nontrivial = distinct generator signatures x (mode, pass, outcome).".to_string();
     let dir = args.work.join(format!("pass-{}-{}", std::process::id(), args.shard));
